@@ -100,6 +100,14 @@ SB_OP(poly)
         const std::string& q = t[i];
         char k = q[0];
         sb_poly_t p = base;
+        if (k == 'e' || k == 'g' || k == 'S' || k == 'T' || k == 'X') {
+            // the slots above num_coeffs are not part of the polynomial: sb_poly_make_bezier leaves whatever an earlier,
+            // longer polynomial stored there (for 3 or more control points), so a polynomial in a reused object looks
+            // like this; evaluation, degree, root finding and extrema must not look at them
+            for (size_t j = p.num_coeffs; j < SB_MAX_POLY_COEFFS; j++)
+                p.coeffs[j] = (j % 2) ? -7777.0f : 4242.0f;
+        }
+        const sb_poly_t given = p;
         if (k == 'e') {
             float x = tokf(q.substr(1));
             add(out, fbits(sb_poly_eval(&p, x)) + "," + dbits(sb_poly_eval_double(&p, (double)x)));
@@ -139,7 +147,7 @@ SB_OP(poly)
             if (rc == SB_SUCCESS)
                 for (int j = 0; j < num && j < 8; j++)
                     ok = ok && f2b(roots3[j]) == f2b(roots[j]);
-            bool untouched = memcmp(&p, &base, sizeof(p)) == 0;
+            bool untouched = memcmp(&p, &given, sizeof(p)) == 0;
             add(out, s + "," + (ok ? "=" : "!") + (untouched ? "=" : "!"));
         } else if (k == 'T') {
             float v = tokf(q.substr(1));
